@@ -11,6 +11,7 @@ use super::soup::{self, Soup};
 use crate::lib;
 use crate::runner::{Ctx, Outcome, Prop, Tier};
 use arbitrary::Unstructured;
+use piecewise_polynomial::*;
 use proptest::prelude::*;
 use serde::{Deserialize, Serialize};
 use std::collections::BTreeMap;
@@ -68,7 +69,21 @@ impl Prop for C16 {
                 if n != xs.len() {
                     return Outcome::Fail(format!("evaluate_v yielded {n} values for {} arguments (ends {ends:?})", xs.len()));
                 }
-                Outcome::Pass
+                // ... and with the case's actual piece type (every degree of every family occurs)
+                struct EV<'a> {
+                    xs: &'a [f64],
+                }
+                impl<'a> super::common::PwVisitor for EV<'a> {
+                    type Out = Outcome;
+                    fn visit<T: Evaluate + Clone + std::fmt::Debug + 'static>(&mut self, pw: &Piecewise<T>, _is_tag: bool) -> Outcome {
+                        let n = lib!(pw.evaluate_v(self.xs.to_vec()).count());
+                        if n != self.xs.len() {
+                            return Outcome::Fail(format!("evaluate_v yielded {n} values for {} arguments", self.xs.len()));
+                        }
+                        Outcome::Pass
+                    }
+                }
+                super::common::visit_pw(&h.pw, &mut EV { xs: &xs })
             }
             Case::Soup(s) => {
                 ctx.label("kind:soup");
